@@ -6,15 +6,73 @@ ASSUMPTIONS = []
 BOUNDS = {}
 CLAIMED = False
 MANIFEST = {}
-OBJ = ["repo:parsec/class/parsec_object.c", "repo:parsec/class/parsec_list.c", "repo:parsec/class/parsec_lifo.c"]
+OBJ = ["repo:parsec/class/parsec_object.c", "repo:parsec/class/parsec_list.c"]
+
+
+def layouts(u):
+    """every segmentation of u units into FULL(1)/EMPTY(0) segments without two adjacent EMPTY ones"""
+    out = []
+
+    def rec(rem, segs):
+        if rem == 0:
+            out.append(list(segs))
+            return
+        for sz in range(1, rem + 1):
+            for full in (1, 0):
+                if not full and segs and not segs[-1][1]:
+                    continue
+                segs.append((sz, full))
+                rec(rem - sz, segs)
+                segs.pop()
+    rec(u, [])
+    return out
+
+
+def lname(lay):
+    return "".join("%s%d" % ("F" if f else "e", s) for s, f in lay)
+
 
 def queries(ctx):
     qs = []
-    def hist(u, k, tiers=("quick", "thorough"), timeout=1800):
-        qs.append(Q("hist_u%d_k%d" % (u, k), ["zh.c"] + OBJ, defs=["U=%d" % u, "K=%d" % k, "MAXNODES=%d" % (u + 1)], unwind=max(u, k) + 3, unwindset=["expand_array.0:11"],
-                    units=[ZM, "parsec/utils/zone_malloc.h"], object_bits=10, timeout=timeout, tiers=tiers, mem_gb=8, slow=True, info={}))
-    hist(3, 2)
+
+    def q(name, u, ops, lay=None, forder=0, tiers=("quick", "thorough"), timeout=1800):
+        k = len(ops)
+        defs = ["U=%d" % u, "K=%d" % k, "MAXNODES=%d" % (u + 1), "OPSEQ=" + ",".join(str(o) for o in ops)]
+        has_m, has_f = 0 in ops, 1 in ops
+        if lay is None:
+            if has_m:
+                defs += ["W_SPLIT=1", "W_EXACT=1", "W_FAIL=1"]
+            if has_f:
+                defs += ["W_FREE=1", "W_MERGE=1"]
+        else:
+            defs += ["NSEG=%d" % len(lay), "SEGSZ=" + ",".join(str(s) for s, f in lay),
+                     "SEGFULL=" + ",".join(str(f) for s, f in lay), "FORDER=%d" % forder]
+            free = [s for s, f in lay if not f]
+            n = len(lay)
+            if has_m:
+                defs.append("W_FAIL=1")
+                if free:
+                    defs.append("W_EXACT=1")
+                if any(s >= 2 for s in free):
+                    defs.append("W_SPLIT=1")
+            if has_f and k == 1:
+                defs.append("W_FREE=1")
+                if any(lay[i][1] and ((i > 0 and not lay[i - 1][1]) or (i + 1 < n and not lay[i + 1][1])) for i in range(n)):
+                    defs.append("W_MERGE=1")
+                if any(lay[i][1] and 0 < i < n - 1 and not lay[i - 1][1] and not lay[i + 1][1] for i in range(n)):
+                    defs.append("W_MERGE2=1")
+        qs.append(Q(name, ["zh.c"] + OBJ, defs=defs, unwind=u + 3, unwindset=["expand_array.0:11"],
+                    units=[ZM, "parsec/utils/zone_malloc.h"], object_bits=10, timeout=timeout, tiers=tiers, mem_gb=8, info={}))
+    q("init_u3_MM", 3, (0, 0))
+    q("init_u3_MF", 3, (0, 1))
+    for lay in layouts(3):
+        nfree = sum(1 for s, f in lay if not f)
+        for fo in ((0, 1) if nfree >= 2 else (0,)):
+            q("u3_%s_o%d_M" % (lname(lay), fo), 3, (0,), lay, fo)
+            if any(f for s, f in lay):
+                q("u3_%s_o%d_F" % (lname(lay), fo), 3, (1,), lay, fo)
     return qs
+
 
 def mutants(ctx):
     return []
